@@ -201,7 +201,7 @@ func TestGenDet(t *testing.T) {
 		}
 	}
 	vk.Enumerate(t, "gen-det-exh", len(cases), func(i int) genDetCase { return cases[i] }, checkGenDet)
-	vk.Run(t, "gen-det", vk.Opts{Quick: 2500, Thorough: 60000, NoCrumb: true}, func(t *rapid.T) genDetCase {
+	vk.Run(t, "gen-det", vk.Opts{Quick: 3000, Thorough: 60000, NoCrumb: true}, func(t *rapid.T) genDetCase {
 		c := genDetCase{Kind: rapid.SampledFrom(kinds).Draw(t, "kind"), Dir: rapid.Bool().Draw(t, "dir")}
 		n := rapid.IntRange(0, 12).Draw(t, "n")
 		idg := rapid.Int64Range(-6, 20)
@@ -603,7 +603,7 @@ func drawProb(t *rapid.T, label string) vk.F {
 
 func TestGenRand(t *testing.T) {
 	kinds := []string{"gnp", "gnm", "smallworldsbb", "powerlaw", "bipartitepowerlaw", "tunableclustering", "prefattach", "navigable", "duplication"}
-	vk.Run(t, "gen-rand", vk.Opts{Quick: 4000, Thorough: 100000, NoCrumb: true}, func(t *rapid.T) genRandCase {
+	vk.Run(t, "gen-rand", vk.Opts{Quick: 6000, Thorough: 100000, NoCrumb: true}, func(t *rapid.T) genRandCase {
 		c := genRandCase{Kind: rapid.SampledFrom(kinds).Draw(t, "kind"), Dir: rapid.Bool().Draw(t, "dir")}
 		c.Seed = [2]uint64{rapid.Uint64().Draw(t, "s0"), rapid.Uint64().Draw(t, "s1")}
 		c.N = rapid.IntRange(0, 24).Draw(t, "n")
